@@ -250,6 +250,10 @@ func Par(fns ...func()) {
 	}
 }
 
+// SetGlobalInt sets an integer package variable of the program under analysis by name
+// (engine only; natively a no-op — the harness reaches the same state some other way).
+func SetGlobalInt(name string, v int) {}
+
 // Stress is the number of repetitions a concurrent harness runs natively so that a schedule
 // found by the engine has a chance to occur; symbolically it is 1.
 func Stress(n int) int { return n }
